@@ -441,7 +441,7 @@ def rules(ctx: Ctx) -> None:
                 ok = lab.key in guarded_keys or lab.key == "*" and False
                 if not ok:
                     # a local guard in the function also discharges it
-                    ok = _locally_guarded(prog, fn, fcfg, pexpr, call, guard_call_on)
+                    ok = _locally_guarded(prog, fn, fcfg, pexpr, call, guard_call_on, key=lab.key)
                 ctx.ob("R17.2", key, ok, where,
                        f"`{u(call)[:70]}` reads body key {lab.key!r}: the dispatcher (or the function itself) must guard that key before the sink"
                        + ("" if ok else f" (dispatcher guards {sorted(guarded_keys)})"))
@@ -512,7 +512,7 @@ def _dotdot_rejected_at_creation(prog: Prog, fn: Fn, cfg, pexpr: ast.AST, taint:
     return ok_any
 
 
-def _locally_guarded(prog: Prog, fn: Fn, cfg, pexpr: ast.AST, sink_call: ast.AST, guard_call_on) -> bool:
+def _locally_guarded(prog: Prog, fn: Fn, cfg, pexpr: ast.AST, sink_call: ast.AST, guard_call_on, key: Optional[str] = None) -> bool:
     """Every path from a tainted definition of the sink's variable to the sink crosses the True edge of a sound guard on that variable."""
     var = pexpr
     while isinstance(var, (ast.Attribute, ast.Call)):
@@ -529,7 +529,7 @@ def _locally_guarded(prog: Prog, fn: Fn, cfg, pexpr: ast.AST, sink_call: ast.AST
             srcs = [k.func.value for k in ast.walk(node.iter) if isinstance(k, ast.Call) and isinstance(k.func, ast.Attribute) and k.func.attr in ("iterdir", "glob", "rglob")]
             if not srcs:
                 return False
-            outs.append(all(_locally_guarded(prog, fn, cfg, sx, sink_call, guard_call_on) for sx in srcs))
+            outs.append(all(_locally_guarded(prog, fn, cfg, sx, sink_call, guard_call_on, key=key) for sx in srcs))
         return all(outs)
     sink = cfg.node_for(sink_call)
     if sink is None:
@@ -556,8 +556,11 @@ def _locally_guarded(prog: Prog, fn: Fn, cfg, pexpr: ast.AST, sink_call: ast.AST
             continue
         if not _mentions_request_value(d):
             continue
-        if not _is_derived_def(d):
-            continue
+        if key is None:
+            if not _is_derived_def(d):
+                continue  # derived labels: only the non-preserving definitions need their own guard
+        elif f"'{key}'" not in u(d) and f'"{key}"' not in u(d) and f".{key}" not in u(d):
+            continue  # raw label of another body key
         if nx.has_path(g, did, sink):
             return False
     return True
